@@ -236,7 +236,11 @@ def rule_resume_all(ctx):
     # threads_suspended = false on every path to return
     stores = [bi for bi, blk in enumerate(b.blocks) for st in blk["stmts"] if st["k"] == "assign" and st["p"]["proj"] and st["p"]["proj"][-1].get("n") == "threads_suspended"]
     rets = [i for i in range(b.n) if b.term(i)["k"] == "return"]
-    w = must_pass(b, 0, rets, stores)
+    # (a path on which the flag was just read false needs no store)
+    starts = [tgt for x in guards for (tgt, lab) in b.succ_edges(x) if lab[0] == "sw" and lab[1] != 0] or [0]
+    w = None
+    for st0 in starts:
+        w = w or must_pass(b, st0, rets, stores)
     ctx.check(bool(stores) and w is None, R, "clears-flag", b.where(stores[0]) if stores else None, "threads_suspended is cleared on every path", "threads_suspended can stay set")
     # guard: the loop runs iff threads_suspended
     # resume_thread == ptrace_detach(child)
